@@ -141,6 +141,30 @@ Definition arena_read_n (h : heap) (k : option gcache) (got : list N) (count : N
                SArena c (kbump k1) (nlen got), {| acount := 1; achunk := Some c |})
        end.
 
+(* ---- AnchoredSlice: a slice together with the anchor that keeps its chunk alive ---- *)
+Record aslice := { as_sl : gsl; as_anchor : ganchor }.
+Definition as_default : aslice := {| as_sl := SExt []; as_anchor := {| acount := 0; achunk := None |} |}.
+Definition as_len (a : aslice) : N := sl_len (as_sl a).
+(* ByteArena::read_n as the user sees it *)
+Definition as_read_n (h : heap) (k : option gcache) (got : list N) (count : N) : option (heap * option gcache * aslice) :=
+  match arena_read_n h k got count with
+  | Some (h', k', s, a) => Some (h', k', {| as_sl := s; as_anchor := a |})
+  | None => None
+  end.
+Definition sl_skip (s : gsl) (n : N) : gsl :=
+  match s with SArena c off len => SArena c (off + n) (len - n) | SExt bs => SExt (nskipn n bs) end.
+Definition sl_keep (s : gsl) (n : N) : gsl :=
+  match s with SArena c off len => SArena c off n | SExt bs => SExt (nfirstn n bs) end.
+Definition as_skip_prefix (a : aslice) (count : N) : aslice * N :=
+  let n := N.min count (as_len a) in ({| as_sl := sl_skip (as_sl a) n; as_anchor := as_anchor a |}, n).
+Definition as_drop_suffix (a : aslice) (count : N) : aslice * N :=
+  let n := N.min count (as_len a) in ({| as_sl := sl_keep (as_sl a) (as_len a - n); as_anchor := as_anchor a |}, n).
+Definition as_split_at (a : aslice) (mid : N) : aslice * aslice :=
+  if as_len a <=? mid then (a, as_default)
+  else ({| as_sl := sl_keep (as_sl a) mid; as_anchor := as_anchor a |},
+        {| as_sl := sl_skip (as_sl a) mid; as_anchor := as_anchor a |}).
+Definition as_take (a : aslice) : aslice * aslice := (a, as_default).      (* (returned, left behind) *)
+
 (* ---- GlobalDeque + OwningIovec ---- *)
 Record gbackref := { bend : N; bidx : N; bbegin : N; blen : N }.
 Record giov := {
